@@ -14,7 +14,7 @@ from . import values as V
 
 REFS = ('A1', 'B2', 'C3', 'B2:C3')
 SIGNS = ('+', '-')
-OPERANDS = {'1', '2', '3', '"s"', 'A1', 'B2', 'C3', 'B2:C3'}
+OPERANDS = {'1', '2', '3', 'TRUE', '"s"', 'A1', 'B2', 'C3', 'B2:C3'}
 FN = {'SUM(', 'IF(', 'MAX(', 'ARRAY('}
 BINOPS = {'=', '<', '>', '<=', '>=', '<>', '&', '+', '-', '*', '/', '^'}
 
@@ -196,7 +196,7 @@ def spell(toks, style, rnd=None):
             # sheet- and workbook-qualified spellings, quoted and not, in turn
             s = QUALS[nref % len(QUALS)] + t
             nref += 1
-        if style in ('lower', 'mixed') and (t in FN or t in REFS):
+        if style in ('lower', 'mixed') and (t in FN or t in REFS or t == 'TRUE'):
             s = s.lower() if style == 'lower' else ''.join(
                 c.lower() if i % 2 else c.upper() for i, c in enumerate(s))
         binary = t in BINOPS and prev is not None and is_operand_end(prev)
